@@ -368,6 +368,52 @@ void sexp_conservative_mark (sexp ctx) {
 #endif
 
 #if SEXP_USE_WEAK_REFERENCES
+/* An ephemeron holds its value for as long as its key is alive.  The  */
+/* value is not a traced slot (it must not keep the key alive), so    */
+/* after the main mark we mark the values of all reachable ephemerons */
+/* whose keys were reached, repeating while that uncovers new objects. */
+static void sexp_mark_ephemeron_values(sexp ctx) {
+  int i, len, extra, changed, alive;
+  sexp_heap h;
+  sexp p, t, end, *v;
+  sexp_free_list q, r;
+  if (sexp_not(sexp_global(ctx, SEXP_G_WEAK_OBJECTS_PRESENT)))
+    return;
+  do {
+    changed = 0;
+    for (h = sexp_context_heap(ctx) ; h; h=h->next) {
+      p = sexp_heap_first_block(h);
+      q = h->free_list;
+      end = sexp_heap_end(h);
+      while (p < end) {
+        for (r=q->next; r && ((char*)r<(char*)p); q=r, r=r->next)
+          ;
+        if ((char*)r == (char*)p) { /* this is a free block, skip it */
+          p = (sexp) (((char*)p) + r->size);
+          continue;
+        }
+        if (sexp_valid_object_p(ctx, p) && sexp_markedp(p)) {
+          t = sexp_object_type(ctx, p);
+          extra = sexp_type_weak_len_extra(t);
+          if (sexp_type_weak_base(t) > 0 && extra > 0) {
+            v = (sexp*) ((char*)p + sexp_type_weak_base(t));
+            len = sexp_type_num_weak_slots_of_object(t, p);
+            for (i=0, alive=1; i<len; i++)
+              if (v[i] && sexp_pointerp(v[i]) && ! sexp_markedp(v[i]))
+                alive = 0;
+            for (i=len; alive && i<len+extra; i++)
+              if (v[i] && sexp_pointerp(v[i]) && ! sexp_markedp(v[i])) {
+                sexp_mark(ctx, v[i]);
+                changed = 1;
+              }
+          }
+        }
+        p = (sexp) (((char*)p)+sexp_heap_align(sexp_allocated_bytes(ctx, p)));
+      }
+    }
+  } while (changed);
+}
+
 int sexp_reset_weak_references(sexp ctx) {
   int i, len, broke, all_reset_p;
   sexp_heap h;
@@ -417,6 +463,7 @@ int sexp_reset_weak_references(sexp ctx) {
   return broke;
 }
 #else
+#define sexp_mark_ephemeron_values(ctx)
 #define sexp_reset_weak_references(ctx) 0
 #endif
 
@@ -582,6 +629,7 @@ sexp sexp_gc (sexp ctx, size_t *sum_freed) {
   sexp_mark_global_symbols(ctx);
   sexp_mark(ctx, ctx);
   sexp_conservative_mark(ctx);
+  sexp_mark_ephemeron_values(ctx);
   sexp_reset_weak_references(ctx);
   finalized = sexp_finalize(ctx);
   res = sexp_sweep(ctx, sum_freed);
